@@ -85,11 +85,15 @@ pub fn run_recv(toks: &[&str], dir: &Path, cap: &mut Capture) -> String {
     let ws: u16 = toks[2].parse().unwrap();
     let tmo: u64 = toks[3].parse().unwrap();
     let rep: u8 = toks[4].parse().unwrap();
-    let clean = toks[5] == "1";
+    let clean = toks[5].starts_with('1');
     let fails = parse_fails(toks[6]);
     let events = parse_events(toks[7]);
     let path: PathBuf = dir.join("dst.bin");
     let _ = std::fs::remove_file(&path);
+    if toks[5].ends_with('p') {
+        // an upload over an existing, longer file (overwrite mode): File::create must truncate it, a failure must still clean it
+        std::fs::write(&path, vec![0xEEu8; 5000]).unwrap();
+    }
     let (sock, sh) = SimSocket::new(events, fails, tmo, Some(Snap::new(path.clone())));
     cap.take();
     let worker = Worker::new(Box::new(sock), path.clone(), clean, blk, Duration::from_nanos(tmo), ws, rep);
